@@ -24,6 +24,8 @@ LEVEL_TEXT = ('Decides from the source, for every node class at once: the parser
               'regexpp escapes every character the printer would alter (line-boundary characters, TAB), Optional settings are '
               'emitted as None. Equality of results for concrete grammar x input pairs is not decided; naming via last_node vs '
               'returned value is not decided.')
+TECHNIQUE += '; operand correspondence (operand fields read from <Class>._parse vs operand stand-ins the interpreted generator handler hands to walk())'
+LEVEL_TEXT += ' Added clauses: literal operands and the generated configuration are read back from the emitted text; for every node class the generator walks the same operand fields the model parses (a based rule: base expression followed by its own).'
 LEVEL_NOTE = ('Trusted: repr() escapes every non-printable character; str.splitlines() breaks at \\n \\r \\v \\f \\x1c \\x1d \\x1e \\x85 '
               '\\u2028 \\u2029; str.expandtabs() rewrites TAB.')
 EXPLANATION = ('Static analysis of /repo sources, TatSu not imported. walk_* methods of PythonParserGenerator and _parse methods '
@@ -695,4 +697,148 @@ def r7_generated_configuration(a, tier, rule_id='C02.R7'):
     return rep
 
 
-RULES = [r1_exhaustive, r2_primitives, r3_rule_transfer, r4_emission, r5_context_free_emission, r6_leaf_literals, r7_generated_configuration]
+def _model_operand_reads(a, cls: str, operands: set[str]) -> set[str]:
+    """operand fields read (as self.<field>) on the way from <cls>._parse through the self-methods it calls and super()._parse."""
+    reads: set[str] = set()
+    seen: set[str] = set()
+    mro = a.ct.mro(cls)
+
+    def visit(fn):
+        if fn is None or fn.qualname in seen:
+            return
+        seen.add(fn.qualname)
+        for n in walk_no_defs(fn.node):
+            if isinstance(n, ast.Attribute) and norm(n.value) == 'self' and n.attr in operands:
+                reads.add(n.attr)
+            if isinstance(n, ast.Call) and isinstance(n.func, ast.Attribute):
+                if norm(n.func.value) == 'self':
+                    visit(a.ct.lookup(cls, n.func.attr))
+                elif isinstance(n.func.value, ast.Call) and dotted(n.func.value.func) == 'super' and fn.cls is not None \
+                        and fn.cls.qualname in mro:
+                    for q in mro[mro.index(fn.cls.qualname) + 1:]:
+                        k = a.p.classes.get(q)
+                        if k and n.func.attr in k.methods:
+                            visit(k.methods[n.func.attr])
+                            break
+    visit(a.ct.lookup(cls, '_parse'))
+    return reads
+
+
+def _walker_operand_reads(a, fn, operands: set[str]) -> set[str]:
+    """operand fields of the node parameter read by a walk_* method, following self.<method>(node) delegations."""
+    reads: set[str] = set()
+    seen: set[tuple[str, int]] = set()
+
+    def visit(f, idx):
+        if f is None or (f.qualname, idx) in seen:
+            return
+        seen.add((f.qualname, idx))
+        params = [x.arg for x in f.node.args.args]
+        if idx >= len(params):
+            return
+        p = params[idx]
+        for n in ast.walk(f.node):
+            if isinstance(n, ast.Attribute) and isinstance(n.value, ast.Name) and n.value.id == p and n.attr in operands:
+                reads.add(n.attr)
+            if isinstance(n, ast.Call) and isinstance(n.func, ast.Attribute) and norm(n.func.value) == 'self':
+                for i, arg in enumerate(n.args):
+                    if isinstance(arg, ast.Name) and arg.id == p:
+                        visit(a.ct.lookup(GEN, n.func.attr), i + 1)
+    visit(fn, 1)
+    return reads
+
+
+_RULE_ATTRS = dict(name='r', params=(), kwparams={}, is_lrec=False, is_memo=True, no_memo=False, is_name=False, is_tokn=False,
+                   decorators=[], base=None, no_stak=False)
+_EXTRA_ATTRS = {'name': 'n', 'lookaheadlist': [('t',)], 'defines_single': [], 'defines_list': []}
+
+
+def _walker_operands_interpreted(a, cls: str, fields) -> set[str]:
+    """Interpret the generator handler of <cls> on a stand-in node whose operand fields hold distinguishable stand-ins; the
+    result is the set of operand fields whose stand-in reached self.walk()."""
+    owner: dict[int, str] = {}
+    attrs: dict = {}
+    keep = []
+    for f in fields:
+        def marker(tag=f.name):
+            m = _la(Stub(Q['Token'], token=tag))
+            owner[id(m)] = tag
+            keep.append(m)
+            return m
+        if 'Option' in f.annotation:
+            opt = Stub(Q['Option'], exp=marker(), lookaheadlist=[('t',)])
+            owner[id(opt)] = f.name
+            keep.append(opt)
+            attrs[f.name] = [opt]
+        elif f.annotation.replace(' ', '').startswith(('list[', 'tuple[', 'Sequence[')):
+            attrs[f.name] = [marker(), marker()]
+        else:
+            attrs[f.name] = marker()
+    extra = dict(_EXTRA_ATTRS)
+    if 'tatsu.peg.base.Rule' in a.ct.mro(cls):
+        extra.update(_RULE_ATTRS)
+    node = Stub(cls, **{**extra, **attrs})
+    walked: set[str] = set()
+
+    def walk(n, *args, **kw):
+        for x in (n if isinstance(n, (list, tuple)) else [n]):
+            if id(x) in owner:
+                walked.add(owner[id(x)])
+        return ''
+
+    it = ModelInterp(a, {'regexpp': Hook(lambda x: repr(x)), 'safe_name': Hook(lambda s_, *x: s_)})
+    gen = Stub(GEN, ctx='ctx', ctx_stack=['ctx'], loopn='cl', blockn=0, parser_name='',
+               print=Hook(lambda *args, **kw: None), indent=Hook(lambda *args, **kw: _NullCM()), walk=Hook(walk),
+               pfold=Hook(lambda *args, **kw: None), new_choice_number=Hook(lambda: 0), prev_choice_number=Hook(lambda: None),
+               reset_counters=Hook(lambda: None), fitsfmt=Hook(lambda *args, **kw: True))
+    w = _find_walker(a, GEN, cls)
+    it.call_bound(Bound(gen, w.fn), [node], {})
+    return walked
+
+
+def r8_operand_correspondence(a, tier):
+    rep = RuleReport(
+        'C02.R8',
+        'operand correspondence: for every concrete node class with operand fields (fields typed Model, list[Model] or Option '
+        'lists), the operand fields read on the way from <Class>._parse (through the self-methods it calls and super()) are the '
+        'operand fields whose value the generator handler for the class hands to self.walk() (handler interpreted on a stand-in '
+        'node with distinguishable operands; def-use over the handler and its self.walk_X(node) delegations where the handler is '
+        'outside the interpreter). A handler that walks another operand than the one the model parses (BasedRule parses `rhs` = '
+        'base expression followed by its own; walking `exp` drops the base) emits a parser for a different expression',
+        floor=20,
+    )
+    no_parse_ok = {'Comment', 'EOLComment', 'Option', 'Grammar', 'RuleInclude'} | ABSTRACT
+    for c in sorted(a.ct.subclasses(MODEL)):
+        short = c.split('.')[-1]
+        if short in no_parse_ok or c not in a.p.classes:
+            continue
+        fields = [f for f in dataclass_fields(a.ct, c) if not f.name.startswith('_') and f.annotation
+                  and any(t in f.annotation for t in ('Model', 'Option')) and 'ref' not in f.annotation]
+        operands = {f.name for f in fields}
+        if not operands:
+            continue
+        try:
+            w = _find_walker(a, GEN, c)
+        except Unsupported as e:
+            raise AnalysisError(f'cannot interpret _find_walker for {short}: {e}') from e
+        wfn = w.fn if isinstance(w, (FuncRef, Bound)) else None
+        if wfn is None:
+            continue  # reported by R1
+        m = _model_operand_reads(a, c, operands)
+        try:
+            g = _walker_operands_interpreted(a, c, fields)
+            how = 'interpreted'
+        except Unsupported as e:
+            g = _walker_operand_reads(a, wfn, operands)
+            how = f'def-use ({e})'
+        rep.add({'class': short, 'operand_fields': sorted(operands), 'model_parses': sorted(m), 'handler': wfn.name,
+                 'generator_walks': sorted(g), 'how': how})
+        if m != g:
+            rep.fail(c, f'operands:{short}:{",".join(sorted(m))}!={",".join(sorted(g))}',
+                     f'{short}._parse parses the operand(s) {sorted(m)} but the generator handler {wfn.name} walks {sorted(g)}: the generated '
+                     f'parser runs a different expression than the model for every grammar containing a {short}', wfn.loc)
+    return rep
+
+
+RULES = [r1_exhaustive, r2_primitives, r3_rule_transfer, r4_emission, r5_context_free_emission, r6_leaf_literals, r7_generated_configuration,
+         r8_operand_correspondence]
